@@ -68,6 +68,9 @@ CHECKS['C15'] = ('offline differential checker over recorded result digests: one
 CHECKS['C16'] = ('runtime layout monitor: executed sizeof/alignof/address/offset/byte-image facts for every vec/mat/qua instantiation, one build per configuration (17 quick, 48 thorough: default, SWIZZLE, XYZW_ONLY, ALIGNED/DEFAULT_ALIGNED_GENTYPES, INTRINSICS at each ISA level, SIZE_T_LENGTH, QUAT_DATA_WXYZ, CTOR_INIT, CXX98, combinations, clang)',
          'For L in 1..4, CxR in 2..4 x 2..4, T in bool,i8..u64,float,double and packed/aligned highp/mediump/lowp qualifiers the monitor executes: sizeof, alignof, &v[i]-&v[0], offsets of named members and aliases, column/element/value_ptr addresses, tag write/read across operator[], members, value_ptr and raw bytes in a guarded buffer, make_vec/make_mat/make_quat round trips, length() value and type, the documented typedef sizes and the manual 2.10 struct example.',
          TRUST + ' Concrete alignments of aligned types other than those the statement names are recorded, not judged.', 'DESIGN.md 7/C16')
+CHECKS['C17'] = ('generated complete enumeration: every 2/3/4-letter swizzle over xyzw/rgba/stpq for source lengths 2-4 in member-function, operator (packed and aligned, reads, writes, compound and self-aliasing assignments) and gtx free-function form; every constructor argument-shape composition x cross-type x cross-qualifier; tags compared through memcpy; compile probes for accessors that must exist',
+         'mon/gen_C17.py emits the swizzle word lists and constructor cases at check time; every source component holds a distinct tag and the expected result is computed from the accessor NAME or the argument list (left-to-right fill, static_cast per component). Builds: function/operator/free forms, CXX98 constructor bodies, SIMD aligned<->packed conversions; thorough adds i8/bool, AVX, clang, -O0 and ASan+UBSan units reading exactly-sized heap objects.',
+         TRUST + ' The enumeration is complete for the accessor and constructor sets the generator lists (exhaustive over names, not over tag values).', 'DESIGN.md 7/C17')
 REASONS = {}
 
 checks = []
